@@ -7,9 +7,6 @@ import Afkak.Monitor.C12
   alterations "of the checksummed bytes" only, which is what `C12_burst` proves.  The extension is
   FALSE for a CRC stored in front of the data it covers; `C12_burst_any_position_counterexample`
   in `AfkakProps/C12.lean` proves the negation on a 27-byte message.
-* `C12_linear_fetch_total`: one bound for a fetch response *and* the iteration of all its message
-  sets together.  Proved separately: the response decoder (`C12_linear_fetch`) and each message set
-  (`C12_linear_msgset`); the sum over the sets of one response is not proved as a single theorem.
 -/
 namespace Afkak.Props.C12.Open
 open Afkak.Crc32 Afkak.WireCost Afkak.C12 Afkak.Monitor.C12
@@ -18,20 +15,5 @@ def C12_burst_any_position : Prop :=
   ∀ (inner : List UInt8 → SetOut) (gz : Gz) (off : Int) (msg e : List UInt8) (k : Nat),
     crcOk msg = true → e.length = msg.length → nonzero e = true → burstWithin e k 32 = true →
     ∃ c, decodeMessage inner gz (some (xorBytes msg e)) off = .out [] (some .checksum) c 0
-
-/-- the message sets of a decoded fetch response, in order -/
-def fetchSets : Val → List (Option (List UInt8))
-  | .list parts => parts.filterMap (fun p => match p with
-      | .list [_, _, _, _, .mset d] => some d
-      | _ => none)
-  | _ => []
-
-def C12_linear_fetch_total : Prop :=
-  ∀ (gz : Gz) (depth : Nat) (v : Int) (bs : List UInt8),
-    match run (decodeFetch v) bs with
-    | .err _ k => k ≤ 2 * bs.length + 1
-    | .ok val _ k =>
-      let outs := (fetchSets val).map (decodeSetOpt gz depth)
-      k + (outs.map (·.cost)).sum ≤ 5 * bs.length + 2 * (outs.map (·.gz)).sum + 1
 
 end Afkak.Props.C12.Open
